@@ -31,6 +31,17 @@ CHECKS = {
             "Derivation scripts of <=3 (quick) / 4 (thorough) with_*/..._sim operations, each applied to a symbolic earlier instance, run symbolically; after each step the effective "
             "run configuration (incl. per-component effective seed as selene computes it) of every earlier instance is re-observed through the real run() and must be unchanged.",
             TB + "; selene's seed-precedence rule as read from the installed selene_sim", "DESIGN.md §5 C28", "E1"),
+    "C27": ("model_checking",
+            "CrossHair/z3 symbolic execution of /repo's Stack/PriorityQueue Guppy source under Python models of Option/array/panic; one inductive step per operation",
+            "Each operation (push/pop/peek/len/next/discard_empty, constructors) is run symbolically from an arbitrary pre-state satisfying the representation invariant "
+            "(any fill level 0..K, unbounded integer priorities/payloads) and compared with a list / sorted-multiset reference model; invariant preservation makes one step cover "
+            "histories of any length within capacity K (4,5 quick; 4..7 thorough). A 5-operation history from empty cross-checks the induction.",
+            TB + "; lib/guppy_models.py (Python models of Guppy primitives); induction principle", "DESIGN.md §5 C27", "E2"),
+    "C18": ("model_checking",
+            "CrossHair/z3 symbolic execution of /repo's Range iterator source with 64-bit wrapping arithmetic over the whole int64 domain",
+            "start/stop/step range over all of int64 (step != 0); the first L (6 quick / 12 thorough) __next__ calls are unrolled and compared with Python's range, incl. the "
+            "region where next+step leaves int64; the comptime variant's static size annotation and the overload order are read from the AST.",
+            TB + "; lib/guppy_models.py; int + is wrapping iadd and comparisons are signed (C04)", "DESIGN.md §5 C18", "E2"),
 }
 
 NOT_APPLICABLE = {
@@ -73,6 +84,7 @@ def main():
             "add_only": True,
         },
         "engines": [
+            {"name": "E2", "path": "lib/guppy_models.py", "kind_free_text": "Guppy std source (Python syntax) from /repo compiled unchanged and executed under CrossHair with Python models of the Guppy primitives"},
             {"name": "E1", "path": "lib/xh_worker.py", "kind_free_text": "CrossHair (z3) symbolic execution of real /repo Python units, one OS process per condition, reachability twin, native replay"},
         ],
         "checks": checks,
